@@ -1152,7 +1152,10 @@ func (f *Field) Range(name string, op pql.Token, predicate int64) (*Row, error) 
 	}
 
 	baseValue, outOfRange := bsig.baseValue(op, predicate)
-	if outOfRange {
+	if outOfRange && op == pql.NEQ {
+		// No stored value can equal the predicate.
+		return view.notNull()
+	} else if outOfRange {
 		return NewRow(), nil
 	}
 
